@@ -93,8 +93,18 @@ def ssb_lts(routine_ops) -> LTS:
             nxt = r[i + 1].offset if i + 1 < len(r) else fall
             name = op.op_code.name
             params = list(op.params)
-            after_ctx = i > 0 and r[i - 1].op_code.name in CTX_OPS
             l.meta[op.offset] = {"offset": op.offset, "routine": ri, "index": i}
+            if name in CTX_OPS and i + 1 < len(r):
+                # the op reached by falling through from a context op runs in that context: a flow-ending op there
+                # ends the actor's / object's / performer's script, not this routine (context variant of the node)
+                nop = r[i + 1]
+                if nop.op_code.name in FLOW_END and nop.op_code.name not in JUMP_IDX:
+                    cn = ("ctx", nop.offset)
+                    nn = r[i + 2].offset if i + 2 < len(r) else fall
+                    l.nodes[cn] = ("ev", (nop.op_code.name, tuple(pkey(p) for p in nop.params)), nn)
+                    l.meta[cn] = {"offset": nop.offset, "routine": ri, "index": i + 1}
+                    nxt = cn
+            after_ctx = False
             if name in JUMP_IDX:
                 ji = JUMP_IDX[name]
                 if len(params) <= ji:
